@@ -1070,7 +1070,7 @@ def run(ctx: Ctx):
             codec_case(ctx, [t, {"k": t}])
         run_cases(ctx, "codec", [gen_meta(rng) for _ in range(ctx.budget(5000, 150000))])
         items = []
-        for _ in range(ctx.budget(2000, 40000)):
+        for _ in range(ctx.budget(2000, 30000)):
             meta = {rng.choice(["k", "key ", "nan", "a.b", "K"]) + str(i): gen_meta(rng) for i in range(rng.choice([0, 1, 2, 4]))}
             meta = {k: v for k, v in meta.items() if v is not None}
             if rng.random() < 0.03:      # a bare None: Dataset.write must refuse it (TypeError), as the model's writeDSM does
